@@ -154,7 +154,25 @@ func checkC12(w *World, r *Report) {
 		// fields whose value flows into a state-writing call of InitGenesis (reading a field for a log line is not importing it)
 		imported := map[string]bool{}
 		if ig := w.Func("x/" + m + ".InitGenesis"); ig != nil {
-			for _, s := range cg.Sites[ig] {
+			// InitGenesis and the step functions of its own package it is cut into (`initVestingAccountTraces(ctx, k, genState)`)
+			steps := []*ssa.Function{ig}
+			seenStep := map[*ssa.Function]bool{ig: true}
+			for i := 0; i < len(steps) && i < 16; i++ {
+				for _, s := range cg.Sites[steps[i]] {
+					if h := s.Static; h != nil && !s.Invoke && w.isProdFunc(h) && h.Pkg == ig.Pkg && !seenStep[h] {
+						seenStep[h] = true
+						steps = append(steps, h)
+					}
+				}
+			}
+			var stepSites []*Site
+			for _, f := range steps {
+				stepSites = append(stepSites, cg.Sites[f]...)
+			}
+			for _, s := range stepSites {
+				if s.Static != nil && seenStep[s.Static] {
+					continue // a step: its own sites are looked at
+				}
 				writes := false
 				for _, c := range s.Callees {
 					if len(cg.targetsBelow(c, func(x *Site) bool { return isStateEffect(cg.Atom(x)) }, map[*ssa.Function]bool{})) > 0 {
